@@ -110,6 +110,9 @@ mod textvalidation;
 // Our internal crate structure is not very relevant to the outside world,
 // expose all structs and traits in the root namespace, and be explicit about it:
 
+#[cfg(feature = "verif")]
+pub mod verif;
+
 #[cfg(feature = "csv")]
 pub use crate::csv::{FromCsv, ToCsv};
 
